@@ -61,5 +61,3 @@ func (e *activeEnpoint) VerifTesting() bool {
 // Manager.Test's m.mu.Lock() yet.
 func VerifUnlock(m *Manager) { m.mu.Unlock() }
 func VerifLock(m *Manager)   { m.mu.Lock() }
-
-func VerifIsErrNetUnreachable(err error) bool { return isErrNetUnreachable(err) }
